@@ -811,7 +811,10 @@ def run(ctx):
         cnt, _, det, case = viol[key]
         for _ in range(cnt):
             ctx.violation(key, f"{key}: {describe(case)}: {det}"[:600], case)
+    from checks import c29b
+    part_e = c29b.run_part(ctx)
     return {
+        **part_e,
         "evaluations": n,
         "distinct_nontrivial": st["nonempty_primary_span"],
         "rule": "non-trivial = full-diagnostic case whose primary span covers at least one column "
@@ -827,6 +830,9 @@ def run(ctx):
 
 
 def replay(ctx, item):
+    if isinstance(item, dict) and item.get("part") == "E":
+        from checks import c29b
+        return c29b.replay(ctx, item)
     res, rendered = evaluate(item)
     return {"violation": bool(res), "case": describe(item), "disagreements": res,
             "output": rendered.split("\n") if rendered else None}
